@@ -11,6 +11,8 @@ import (
 	"strconv"
 	"strings"
 
+	"golang.org/x/tools/go/packages"
+
 	"verif/checker/eng"
 )
 
@@ -755,7 +757,44 @@ func encodersReadOnly(c *cx, id string, in func(f *eng.Fn) bool) int {
 				badPos = w.Stmt.Pos()
 			}
 		}
-		c.r.Check(id, f, "encoder leaves the value unchanged", "E-eff: an encoder does not assign through the receiver (or a local alias of a part of it): encoding does not change the value", badPos, bad == "", bad)
+		// appends and copies INTO a slice of the receiver write to its backing
+		// array as well: append(recv.f, x), X.AppendEncode(recv.f[len(recv.f):], ...),
+		// copy(recv.f, ...). A three-index slice expression (cap == len) forces a
+		// new array and is fine.
+		isRecv := func(v *types.Var) bool {
+			return v != nil && (v == recv || (f.Decl.Recv != nil && len(f.Decl.Recv.List) > 0 && len(f.Decl.Recv.List[0].Names) > 0 && f.Info().Defs[f.Decl.Recv.List[0].Names[0]] == types.Object(v)))
+		}
+		for _, cl := range f.AllCalls() {
+			if len(cl.Args) == 0 {
+				continue
+			}
+			cid := f.CalleeID(cl)
+			name := cid
+			if i := strings.LastIndexByte(name, '.'); i >= 0 {
+				name = name[i+1:]
+			}
+			if cid != "builtin.append" && cid != "builtin.copy" && !strings.HasPrefix(name, "Append") {
+				continue
+			}
+			dst := ast.Unparen(cl.Args[0])
+			if se, ok := dst.(*ast.SliceExpr); ok {
+				if se.Slice3 {
+					continue
+				}
+				dst = ast.Unparen(se.X)
+			}
+			if _, isSlice := f.Info().TypeOf(dst).Underlying().(*types.Slice); !isSlice {
+				continue
+			}
+			if _, isSel := dst.(*ast.SelectorExpr); !isSel {
+				continue
+			}
+			if root := rootLocal(f, dst); isRecv(root) && bad == "" {
+				bad = cid + " at " + c.p.Pos(cl.Pos()) + " writes into the backing array of " + f.Norm(dst, nil) + " (spare capacity of the caller's slice is shared with the caller)"
+				badPos = cl.Pos()
+			}
+		}
+		c.r.Check(id, f, "encoder leaves the value unchanged", "E-eff: an encoder does not assign through the receiver (or a local alias of a part of it), nor append or copy into one of its slices: encoding does not change the value", badPos, bad == "", bad)
 	}
 	return n
 }
@@ -1286,4 +1325,106 @@ func historyPageSlotAgreement(c *cx, id string) {
 		}
 	}
 	c.r.Floor(id, "page position slots in history.Query.TokenReader", n, 2)
+}
+
+// floatsFormattedForIntegerReaders (C19.32): sibling agreement between an
+// encoder that formats a float into an attribute and the decoder of the same
+// package that reads that attribute into an integer field. The text must be
+// an integer: strconv.FormatFloat(x, 'f', 0, w). Any other format or
+// precision ("1.5", "1e+06") is refused by the decoder's integer parse: the
+// element the library wrote is rejected by the library.
+func floatsFormattedForIntegerReaders(c *cx, id string) int {
+	n := 0
+	for _, f := range c.allFns() {
+		if f.Body == nil || !strings.HasPrefix(f.Pkg.PkgPath, eng.ModPath) {
+			continue
+		}
+		g := f.Graph()
+		for _, cl := range f.AllCalls() {
+			if f.CalleeID(cl) != "strconv.FormatFloat" || len(cl.Args) != 4 {
+				continue
+			}
+			// the attribute the text goes into
+			local := ""
+			for p := g.Parent(cl); p != nil; p = g.Parent(p) {
+				lit, ok := p.(*ast.CompositeLit)
+				if !ok || eng.TypeStr(f.Info().TypeOf(lit)) != "encoding/xml.Attr" {
+					continue
+				}
+				if nm := structLitField(lit, "Name"); nm != nil {
+					if nl, ok := ast.Unparen(nm).(*ast.CompositeLit); ok {
+						if lv := structLitField(nl, "Local"); lv != nil {
+							local, _ = f.ConstStr(lv)
+						}
+					}
+				}
+				break
+			}
+			if local == "" {
+				continue
+			}
+			// an integer field of the package decoded from that attribute
+			intField := ""
+			for _, obj := range f.Pkg.TypesInfo.Defs {
+				v, ok := obj.(*types.Var)
+				if !ok || !v.IsField() {
+					continue
+				}
+				t := v.Type()
+				if p, ok := t.Underlying().(*types.Pointer); ok {
+					t = p.Elem()
+				}
+				b, ok := t.Underlying().(*types.Basic)
+				if !ok || b.Info()&types.IsInteger == 0 {
+					continue
+				}
+				if tag := fieldTagOf(f.Pkg, v); tag != "" {
+					parts := strings.Split(tag, ",")
+					nameParts := strings.Fields(parts[0])
+					isAttr := false
+					for _, o := range parts[1:] {
+						if o == "attr" {
+							isAttr = true
+						}
+					}
+					if isAttr && len(nameParts) > 0 && nameParts[len(nameParts)-1] == local {
+						intField = v.Name() + " " + eng.TypeStr(v.Type())
+					}
+				}
+			}
+			if intField == "" {
+				continue
+			}
+			n++
+			fm := f.ConstVal(cl.Args[1])
+			prec, okP := f.ConstInt(cl.Args[2])
+			okF := fm != nil && fm.ExactString() == "102" // 'f'
+			c.r.Check(id, f, "float formatted into attribute "+local, "sibling agreement: the decoder reads "+local+" into the integer field "+intField+", so the encoder writes an integer: FormatFloat(x, 'f', 0, w)", cl.Pos(), okF && okP && prec == 0, "format/precision "+types.ExprString(cl.Args[1])+"/"+types.ExprString(cl.Args[2])+" can produce a fraction or an exponent, which the integer parse of the decoder refuses")
+		}
+	}
+	return n
+}
+
+// fieldTagOf returns the xml struct tag of field v.
+func fieldTagOf(pkg *packages.Package, v *types.Var) string {
+	tag := ""
+	for _, file := range pkg.Syntax {
+		ast.Inspect(file, func(nd ast.Node) bool {
+			st, ok := nd.(*ast.StructType)
+			if !ok || st.Fields == nil {
+				return true
+			}
+			for _, fl := range st.Fields.List {
+				for _, nm := range fl.Names {
+					if pkg.TypesInfo.Defs[nm] == types.Object(v) && fl.Tag != nil {
+						if s, err := strconv.Unquote(fl.Tag.Value); err == nil {
+							tag = reflect.StructTag(s).Get("xml")
+						}
+					}
+				}
+			}
+			return true
+		})
+	}
+	return tag
 }
